@@ -462,6 +462,7 @@ def run(tier, seed):
             cases.append((w, rs, data, labels))
     cases += merged_family(seed, scale(tier, 60))
     cases += writer_alias_family()
+    cases += promotion_order_family()
     # ---- encode with the implementation, resolve on all three sides
     reqs, meta = [], []
     for ci, (w, rs, data, labels) in enumerate(cases):
@@ -581,6 +582,31 @@ def run(tier, seed):
                       "schemaless": [exp, experr], "tags": list(labels) + ["container"]},
                      "container reader and schemaless reader resolve differently", kind="oracle")
     return run.finish()
+
+
+def promotion_order_family():
+    """a writer primitive with SEVERAL promotion targets in the reader union, in every order, with and without the exact type:
+    the first branch in declared order that the writer type matches (exactly first, else by promotion) is the one read"""
+    import itertools
+    out = []
+    targets = {"int": (["long", "float", "double"], 5), "long": (["float", "double"], 7), "float": (["double"], 1.5), "string": (["bytes"], "hi"),
+               "bytes": (["string"], b"hi")}
+    for wt, (ts, val) in targets.items():
+        pool = ts + ["null", "boolean"]
+        for n in (2, 3):
+            for combo in itertools.permutations(pool, n):
+                if not any(t in ts for t in combo):
+                    continue
+                for with_exact in (False, True):
+                    ru = list(combo) + ([wt] if with_exact else [])
+                    out.append((wt, ru, [val], ["directed:promotion-order", wt, "top"]))
+                    if n == 2 and not with_exact:
+                        wf = {"type": "record", "name": "P", "fields": [{"name": "v", "type": wt}, {"name": "vs", "type": {"type": "array", "items": wt}},
+                                                                       {"name": "u", "type": ["null", wt]}]}
+                        rf = {"type": "record", "name": "P", "fields": [{"name": "v", "type": ru}, {"name": "vs", "type": {"type": "array", "items": ru}},
+                                                                       {"name": "u", "type": ["null"] + [t for t in ru if t != "null"]}]}
+                        out.append((wf, rf, [{"v": val, "vs": [val, val], "u": val}], ["directed:promotion-order", wt, "record"]))
+    return out
 
 
 def writer_alias_family():
